@@ -1,22 +1,60 @@
 """C03 — crash recovery is atomic, prefix-consistent and repeatable."""
-GEN = False
+GEN = True           # go/extract/c03.go: BlugeGen.C03 (recovery walk, nextSegmentID seed, persister/merger error branches)
+                     # and the layers its theorems are stated over: BlugeGen.C02, BlugeGen.C12
 STATELESS = False
 NO_SHRINK = True     # the trace of a case depends on goroutine scheduling: a shrunk script is a different run
-REQUIRED_BRANCHES = []
-ASSUMPTIONS = []
-TRUSTED = []
-EXEC_TIMEOUT = {"quick": 900, "thorough": 10800}
+REQUIRED_BRANCHES = [
+    "intro", "grab", "segend", "ipersist", "snapend", "commit", "ack", "ackobs", "rmsnap", "rmseg", "imerge", "equiv",
+    "image-after-ack", "image-before-ack", "img-snap-a", "img-snap-t", "img-snap-f", "img-seg-torn", "img-seg-full",
+    "img-recovers-unacked", "img-full-snapshot-recovered", "img-no-snapshot", "img-none-loadable",
+    "img:absent", "img:prefix", "img:zero", "img:full", "img:stale", "img:previous", "img:asis",
+    "replay", "crash", "open-refused", "open-empty", "fork:firstsnap-torn", "fork:firstsnap-absent", "crash-snap-t", "crash-snap--", "open-existing", "snapbegin-over-existing-file",
+    "fork:snap", "fork:seg", "fork:orphan", "fork:acked", "fork:twofault", "fork-depth:1", "fork-depth:2",
+    "img-depth:0", "img-depth:1", "img-depth:2",
+    "twofault:epoch-reissued", "twofault:reissued-shorter-than-torn-file",
+]
+ASSUMPTIONS = [
+    "PersistExact = Event.exact (C13): a Directory.Persist that returned nil left exactly the bytes written, complete and synced; evaluated on every real Persist (file read back and compared) -> bad:assumption-persist-exact; without it durability fails (theorem two_fault_needs_exact, reproduced on the real code when the truncation in FileSystemDirectory.Persist is removed)",
+    "TornRejected: a torn variant (prefix, zero-filled, prefix + stale tail, previous file) of a snapshot encoding other than the encoding itself is rejected by the loader; CRC-32 cannot make this a theorem; evaluated on every torn image built (harness-side decoder + the real OpenReader/OpenWriter result compared with the model's) -> bad:assumption-torn-rejected / bad:not-a-prefix",
+    "the real decoder is total (C12): open_never_crashes is proved for the decoder model Bluge.Codec in the configuration Gen reads off /repo (gen_decoder_is_total); every crash image is opened in a child process so that a fault is an observation -> bad:open-crashed",
+    "a root's logical content is abstract in Bluge.Persist: k = number of batches applied; that a root of content k shows exactly absOf(first k batches) is C01's refinement — re-checked here on every recovered directory by evaluating Bluge.Index.absOf on the recorded batches and comparing with the documents the real reader returns",
+    "fsync makes the file durable together with its directory entry (the writer never calls Directory.Sync()); a torn segment file is never named by a loadable snapshot (segments are persisted before the snapshot that names them: Gen fact of C02)",
+    "segment files: a complete segment file loads (ice plugin); the crash images keep complete segment files byte-identical",
+]
+TRUSTED = ["hand-written model Bluge.Persist + Bluge.Faults tied by the correspondence stream `recover` (every recorded event accepted by `step`, directory listing compared after each, every crash image's recovered content compared) and by the Gen facts BlugeGen.C03/C02/C12",
+           "go/extract/c03.go (fact extraction from writer.go, directory_fs.go, persister.go, merge.go, deletion.go)",
+           "go/harness/persistlib (recording Directory/DeletionPolicy, trace hook, crash-image materialisation, child processes running bluge.OpenReader and bluge.OpenWriter)"]
+EXEC_TIMEOUT = {"quick": 900, "thorough": 14400}
 
 
 def signature(rec):
     v = rec["verdict"]
-    if v.startswith("bad:open-crashed"):
+    if v.startswith("bad:open-crashed") or v.startswith("bad:open-hangs"):
         return "corrupt-newest-snapshot-crashes-open"
     if "reissued-over-torn" in v:
         return "reissued-epoch-over-longer-torn-file"
+    if "after-inexact-persist" in v or v.startswith("bad:assumption-persist-exact"):
+        return "persist-not-exact"
+    if v.startswith("bad:acked-batch-lost"):
+        return "acked-batch-lost-after-crash"
+    if v.startswith("bad:not-a-prefix"):
+        return "recovered-content-not-a-prefix"
+    if v.startswith("bad:open-failed-after-completed-snapshot"):
+        return "open-fails-after-completed-snapshot"
+    if v.startswith("bad:assumption-torn-rejected"):
+        return "torn-snapshot-accepted"
     return None
 
 
-LEVEL_TEXT = ""
-LEVEL_NOTE = ""
-TECHNIQUE = ""
+LEVEL_TEXT = ("Lean 4 theorems about the persistence protocol model Bluge.Persist extended with torn segment files (Bluge.Faults): recover is total on every directory; "
+              "once a snapshot was completed one stays (complete_stable); in every state reachable through ANY history with crashes and reopens to any depth, every crash image "
+              "(each file in flight absent, torn or fully written) recovers a whole prefix k of the batch sequence with acked <= k <= applied (C03_prefix, C03_prefix_at_crash); "
+              "OpenWriter succeeds on it, exposes exactly what recover returns, starts above every segment file and above the newest loadable epoch, accepts the next batch, "
+              "and lands in a reachable state again (repeatable); the two-fault scenario shows PersistExact (C13) is necessary; byte level: OpenReader's walk never panics/faults "
+              "for the decoder configuration Gen reads off /repo. Tied to /repo by Gen facts (loadSnapshots oldest->newest with continue, fails iff found and none loaded; "
+              "OpenReader newest->oldest; nextSegmentID from List(segment)[0]) and by the correspondence stream `recover` on the real writer and file-system directory, "
+              "crash images opened by the real OpenReader AND OpenWriter in child processes, crash -> recover -> continue -> crash to depth 2 (thorough 3)")
+LEVEL_NOTE = ("trusted: Lean kernel + propext/Classical.choice/Quot.sound; hypotheses PersistExact (C13) and TornRejected (CRC) explicit and evaluated at run time; "
+              "the OS's fsync/dirent semantics is the FS-model assumption; the hand-written model and the harness. Boundary stated, not a violation: a crash during the very FIRST "
+              "snapshot Persist that leaves a torn file makes OpenWriter refuse the directory (no snapshot was ever completed; theorem first_snapshot_torn_is_refused)")
+TECHNIQUE = "Lean 4 proof (inductive protocol invariant over all event sequences incl. crash/reopen) + Gen fact table + differential correspondence run with crash-image and prefix-consistency oracles"
